@@ -118,6 +118,10 @@ def _families(tier):
         P, C = hexgrid(*dims)
         odd.append({"k": "vol", "p": P, "n": len(P), "el": C, "tag": "hexgrid%dx%dx%d" % dims})
     fams.append(("odd", 2 if thorough else 1, odd))
+    # several components whose vertices and elements are numbered round-robin (components interleaved in index order)
+    inter = [{"k": k, "p": [list(q) for q in pts], "n": len(pts), "el": [list(e) for e in el], "tag": tag}
+             for k in ("pl", "sf", "vol") for tag, pts, el in F.interleaved_specimens(k)]
+    fams.append(("interleaved", 2 if thorough else 1, inter))
     if thorough:
         t6 = [{"k": "vol", "p": "mom", "n": 6, "el": [list(c) for c in cl]} for cl in F.tet6_classes()]
         fams.append(("tet6", 3, t6))
@@ -146,7 +150,7 @@ def _families(tier):
 
 # clause H (call forms) runs on every CF_STRIDE-th member of a family in the quick tier, on every member in thorough
 CF_STRIDE = {"graph": 2, "surf": 2, "surf5q": 4}
-BATCH = {"surf5q": 12, "odd": 1, "graph": 12, "surf": 6, "tet": 3, "holey3": 2, "tet6": 1, "surf6": 1, "zoo": 1, "holey4": 1}
+BATCH = {"surf5q": 12, "odd": 1, "interleaved": 1, "graph": 12, "surf": 6, "tet": 3, "holey3": 2, "tet6": 1, "surf6": 1, "zoo": 1, "holey4": 1}
 
 
 def tasks(tier):
@@ -573,8 +577,37 @@ def _weight_menu(E):
     }
     for name, w in pats.items():
         menu.append((name, "w=dict", w))
+    # weights far from 1 whose differences are far below single precision: exact in double precision, so the expectation is exact
+    pats2 = {
+        "dict:2^24+small": [2 ** 24 + (e * 5 + 1) % 4 for e in range(E)],
+        "dict:1+k*2^-40": [1 + Fraction((e * 3 + 2) % 5, 2 ** 40) for e in range(E)],
+    }
+    for name, w in pats2.items():
+        menu.append((name, "w=dict", w))
     menu.append(("attr:two_values", "w=attr", [float((e * 3) % 2 + 1) for e in range(E)]))
+    # storage forms of an Attribute argument: sparse / dense, default zero or not, explicit entries equal to zero or to the default
+    tz = [float((e * 7 + 3) % 4) for e in range(E)]
+    for form in ATTR_FORMS:
+        menu.append(("attr:ties_and_zero:" + form, "w=attr", tz))
     return menu
+
+
+# label -> (dense, default, which entries are written explicitly)
+ATTR_FORMS = {"sparse:default=1:all_written": (False, 1.0, "all"), "sparse:default=1:only_non_default": (False, 1.0, "nondefault"),
+              "sparse:default=0:only_non_default": (False, 0.0, "nondefault"), "dense:default=0": (True, 0.0, "all"),
+              "dense:default=1": (True, 1.0, "all")}
+
+
+def _make_attr(mesh, name, w, form):
+    dense, default, which = ATTR_FORMS[form] if form else (False, 0.0, "all")
+    kw = {"dense": True} if dense else {}
+    if default != 0.0:
+        kw["default_value"] = default
+    at = mesh.edges.create_attribute(name, float, **kw)
+    for e, x in enumerate(w):
+        if which == "all" or float(x) != default:
+            at[e] = float(x)
+    return at
 
 
 def _libw(w):
@@ -1126,9 +1159,7 @@ def _check_mesh(spec, xmax, tier, fam, rep: Report):
     for wlabel, wcls, w in _weight_menu(L):
         if wcls == "w=attr":
             nm = "c10_" + wlabel.replace(":", "_")
-            at = mesh.edges.create_attribute(nm, float)
-            for e, x in enumerate(w):
-                at[e] = x
+            at = _make_attr(mesh, nm, w, wlabel.split(":", 2)[2] if wlabel.count(":") >= 2 else None)
             mst_sweep(mesh, info, wlabel, wcls, w, lambda: at, allroots, abs_)
         else:
             mst_sweep(mesh, info, wlabel, wcls, w, lambda: _libw(w), allroots, abs_)
